@@ -1,5 +1,6 @@
 import F1Verif.Util
 import F1Verif.Model.Cli
+import F1Verif.Model.Distribution
 namespace F1.Drive
 open F1.Util F1.Parse F1.Plan F1.Cli
 
@@ -84,9 +85,12 @@ def cliOp (args impl : List String) : Option (String × String) := do
         else if wantErr ≠ specErr then "FAIL model-exit-differs-from-spec"
         else if (out "banner" = "fail") ≠ specErr then "FAIL banner-differs-from-verdict"
         else if (get "combine") = some "1" ∧ ¬setupFailed ∧
-            n "later" ≠ (truth.getD 0 0) + (if (get "failkind") = some "errorf" then truth.getD 1 0 else 0) then
+            n "later" ≠ (truth.getD 0 0) + (if (get "failkind") = some "errorf" ∨ (get "failkind") = some "timeerr" then truth.getD 1 0 else 0) then
           "FAIL later-component-of-a-combined-scenario-did-not-run-exactly-when-the-earlier-one-did-not-stop"
         else if out "envAfter" = "dirty" then "FAIL stage-parameters-remain-set-after-the-run"
+        else if n "leak" > 0 then "FAIL goroutine-remains-after-the-command-returned"
+        else if (match (get "retmax").bind String.toInt? with | some m => decide (n "ret" > m) | none => false) then
+          "FAIL command-did-not-return-once-its-run-was-over"
         else
           -- the run lasts as long as the flags say (only when neither the iteration limit nor the trigger's own
           -- duration ends it first): never shorter than max-duration less the 10 ms guard and one timer slack
@@ -108,7 +112,24 @@ def cliOp (args impl : List String) : Option (String × String) := do
           -- ticks of a rate-driven trigger: at most one per tick interval (+ the immediate one); and, when the run is long
           -- enough to tell, not far fewer (a trigger ticking at another interval than the one its rate function is for)
           let expTicks : Int := if p.interval > 0 then p.maxDur / p.interval else 0
-          if (get "timing") = some "1" ∧ p.interval > 0 ∧ n "ticks" > expTicks + 2 then "FAIL more-ticks-than-one-per-interval"
+          -- exact=1 (constant mode, no jitter, plenty of idle workers, instant bodies): the k-th accepted tick requests the
+          -- k-th value of the profile, unchanged — so started + dropped is the sum of the first `ticks` values (the last
+          -- tick may have lost its race with the shutdown and been refused whole)
+          let exactBad : Bool :=
+            if (get "exact") = some "1" ∧ ¬setupFailed ∧ p.interval > 0 then
+              match parseRate (cargs.rate.getD dfltRate) with
+              | .ok (cnt, unit) =>
+                let k := (n "ticks").toNat
+                let vals : List Int :=
+                  if p.interval < unit then (F1.Dist.runZ (unit / p.interval).toNat (fun _ => cnt) k F1.Dist.RegZ.init).2
+                  else List.replicate k cnt
+                let full := vals.sum
+                let butLast := (vals.take (k - 1)).sum
+                !(total == full || total == butLast)
+              | _ => false
+            else false
+          if exactBad then "FAIL started-plus-dropped-is-not-the-sum-of-the-profile-values-of-the-accepted-ticks"
+          else if (get "timing") = some "1" ∧ p.interval > 0 ∧ n "ticks" > expTicks + 2 then "FAIL more-ticks-than-one-per-interval"
           else if (get "timing") = some "1" ∧ p.interval > 0 ∧ expTicks ≥ 5 ∧ n "ticks" * 10 < expTicks * 4 then
             "FAIL far-fewer-ticks-than-the-tick-interval-of-the-rate-function"
           else if (get "timing") = some "1" ∧ (get "sigint").isNone ∧ n "ret" < durMs - 15 then "FAIL run-ended-before-max-duration"
